@@ -31,7 +31,8 @@ from props import C11, C07
 META = {
     "level": "proof",
     "trusted_base": ["clang AST + vc/cppsym", "z3 / cvc5 / ratfun"],
-    "assumptions": ["lemmas L-sum, L-lin, L-pairing (finite-sum algebra) are stated, not machine-checked",
+    "assumptions": ["lemmas L-sum, L-lin, L-pairing (finite-sum algebra) are proved in Lean 4 + Mathlib (lemmas/Sums.lean, re-checked on "
+                    "every run); L-mates (induction over the edge list from the SetNeighbors iteration contract) is stated",
                     "pairing of directed interfaces is checked on bounded instances only (grid shapes <= 4x4x3 x 8 boundary "
                     "combinations, 6 multigraphs with self loops and parallel edges)",
                     "A1: doubles are reals (the deterministic engine conserves to rounding, the stochastic ones exactly because "
@@ -588,7 +589,8 @@ def link_replay(oid, extra):
     return None
 
 
-EXTRA = [battery_step]
+from vc.core.leanstep import lean_step as _lean_step
+EXTRA = [battery_step, _lean_step("Sums.lean", "C02", ["L_sum", "L_lin", "L_pairing"])]
 CASES = []
 if z3 is not None:
     for _c in ("Gillespie3D", "GillespieGraph"):
